@@ -9,6 +9,7 @@ pub mod c14;
 pub mod c16;
 pub mod c15;
 pub mod c18;
+pub mod c13;
 
 pub fn run(args: &Args) -> i32 {
     match args.prop.as_str() {
@@ -22,6 +23,7 @@ pub fn run(args: &Args) -> i32 {
         "C16" => c16::run(args),
         "C15" => c15::run(args),
         "C18" => c18::run(args),
+        "C13" => c13::run(args),
         other => {
             eprintln!("no driver for property {other}");
             2
